@@ -41,8 +41,8 @@ LEVEL_NOTE = ("Trusted: Coq kernel, extraction, translator harness/translate/c10
               "Return-annotation and non-parameter breakages are outside this property. The three non-kind rules (required, moved, default guard) "
               "are modelled by hand (their `if` tests are shape-checked by the translator, not translated). Defaults of inspected (non-visited) "
               "objects are plain strings and are not generated. The correspondence uses calls with at most 5 positionals (theorems: unbounded).")
-MODEL = ("Model.C10_ext", "run_C10")
-COQ_TARGETS = ["Proofs/C10_diff.vo", "Proofs/C10_complete.vo", "Proofs/C10_sound.vo", "Proofs/C10_rule.vo", "Proofs/C10_defaults.vo"]
+MODEL = ("Model.C10_hist", "run_C10")
+COQ_TARGETS = ["Proofs/C10_diff.vo", "Proofs/C10_complete.vo", "Proofs/C10_sound.vo", "Proofs/C10_rule.vo", "Proofs/C10_defaults.vo", "Proofs/C10_hist.vo"]
 RULE = ("exhaustive well-formed signatures over names {a,b,c}, 5 kinds, default in {none,1,2}, <=2 parameters (436 signatures; quick: all identical "
         "pairs + all pairs of a seeded 150-subset; thorough: all ordered pairs) x call shapes (0..5 positionals x keyword subsets of {a,b,c,y,z} "
         "up to size 3, plus repeated keywords); seeded random/mutated pairs of <=5-parameter signatures; pairs whose defaults come from an "
@@ -144,9 +144,25 @@ def src(sig, plain=False):
     return "def f(" + ", ".join(parts) + "): pass"
 
 
+PLACES = ["module", "instance", "class", "static"]
+
+
+def src_in(sig, where="module", plain=False):
+    """The definition at module level, or as a method of class K (instance / class / static method).  Python binds the
+    instance (the class) to the first positional slot of instance (class) methods: a call through K().f / K.f with n
+    positionals is the call of the plain function with n + 1."""
+    d = src(sig, plain)
+    if where == "module":
+        return d
+    deco = {"instance": "", "class": "    @classmethod\n", "static": "    @staticmethod\n"}[where]
+    return "class K:\n" + deco + "    " + d
+
+
 def parse_sig(text):
     """`def f(...)` source -> signature tuple (defaults as the source segment of the default)."""
     fn = ast.parse(text).body[0]
+    if isinstance(fn, ast.ClassDef):
+        fn = fn.body[0]
     a = fn.args
     out = []
     pos = [(x, "PO") for x in a.posonlyargs] + [(x, "PK") for x in a.args]
@@ -544,25 +560,31 @@ class Cache:
         self.fn = {}
         self.bind = {}
 
-    def module(self, sig):
+    def module(self, sig, where="module"):
         import griffe
-        if sig not in self.mod:
-            self.mod[sig] = griffe.visit("m", filepath=None, code=src(sig) + "\n")
-        return self.mod[sig]
+        if (sig, where) not in self.mod:
+            self.mod[sig, where] = griffe.visit("m", filepath=None, code=src_in(sig, where) + "\n")
+        return self.mod[sig, where]
 
-    def pyf(self, sig):
-        """The compiled definition; default values play no part in binding, so they are replaced by 0."""
-        key = tuple((nm, k, bool(d)) for nm, k, d in sig)
+    def fresh_module(self, sig, where="module"):
+        """A private copy (edit histories change the parameters in place)."""
+        import griffe
+        return griffe.visit("m", filepath=None, code=src_in(sig, where) + "\n")
+
+    def pyf(self, sig, where="module"):
+        """The compiled definition as callers reach it (f, K().f or K.f); default values play no part in binding, so
+        they are replaced by 0."""
+        key = (tuple((nm, k, bool(d)) for nm, k, d in sig), where)
         if key not in self.fn:
             ns = {}
-            exec(compile(src(sig, plain=True), "<c10>", "exec", dont_inherit=True), ns)  # noqa: S102
-            self.fn[key] = ns["f"]
+            exec(compile(src_in(sig, where, plain=True), "<c10>", "exec", dont_inherit=True), ns)  # noqa: S102
+            self.fn[key] = ns["f"] if where == "module" else (ns["K"]().f if where == "instance" else ns["K"].f)
         return self.fn[key]
 
-    def bindset(self, sig):
-        key = tuple((nm, k, bool(d)) for nm, k, d in sig)
+    def bindset(self, sig, where="module"):
+        key = (tuple((nm, k, bool(d)) for nm, k, d in sig), where)
         if key not in self.bind:
-            f = self.pyf(sig)
+            f = self.pyf(sig, where)
             self.bind[key] = frozenset(c for c in CALLS if binds_real(f, *c))
         return self.bind[key]
 
@@ -571,10 +593,11 @@ KINDMAP = {"PARAMETER_REMOVED": "removed", "PARAMETER_CHANGED_REQUIRED": "requir
            "PARAMETER_CHANGED_KIND": "kind", "PARAMETER_CHANGED_DEFAULT": "default", "PARAMETER_ADDED_REQUIRED": "added"}
 
 
-def impl_diff(cache, old, new):
+def impl_diff(cache, old, new, where="module", mods=None):
     import griffe
     out = []
-    for b in griffe.find_breaking_changes(cache.module(old), cache.module(new)):
+    mo, mn = mods or (cache.module(old, where), cache.module(new, where))
+    for b in griffe.find_breaking_changes(mo, mn):
         k = KINDMAP.get(b.kind.name)
         if k is None:
             out.append(["other:" + b.kind.value, -1])
@@ -591,19 +614,24 @@ def fmt_call(call):
 GAP_IDS = ["C10-F2", "C10-F4", "C10-F5", "C10-F6", "C10-F7"]
 
 
-def check_pairs(ctx, cache, pairs, stream, notes=None):
+def check_pairs(ctx, cache, pairs, stream, notes=None, where="module"):
     res = ctx.model([["xdiff", enc(o), enc(n)] for o, n in pairs])
     for idx, ((o, n), r) in enumerate(zip(pairs, res)):
-        case = {"old": src(o), "new": src(n)}
+        case = {"old": src_in(o, where), "new": src_in(n, where)}
+        if where != "module":
+            case["where"] = where + " method, called through " + ("K().f" if where == "instance" else "K.f")
         if r == ["bad-input"]:
             ctx.tie_failure("harness", "model rejected the encoded pair", case, case)
             continue
         mdiff, adiff, gaps, f8names, wf, just, gap, tdiff = r
+        raised = None
         try:
-            idiff = impl_diff(cache, o, n)
+            idiff = impl_diff(cache, o, n, where)
         except Exception as e:  # noqa: BLE001
-            idiff = [["exception:" + type(e).__name__, -1]]
-        broken = cache.bindset(o) - cache.bindset(n)
+            idiff, raised = [], type(e).__name__ + ": " + str(e)[:120]
+        broken = cache.bindset(o, where) - cache.bindset(n, where)
+        if raised:
+            ctx.property_failure(case, {"find_breaking_changes raised instead of reporting": raised, "broken_calls": len(broken)})
         od = {p[0]: (i, p) for i, p in enumerate(o)}
         nd = {p[0]: (i, p) for i, p in enumerate(n)}
         # defaults: what CPython compiles for both sides
@@ -624,6 +652,7 @@ def check_pairs(ctx, cache, pairs, stream, notes=None):
                 ctx.observe("default_value", "other expression, same computed value")
         ctx.case(case, bool(broken) or bool(idiff) or bool(dchanged))
         ctx.observe("stream", stream)
+        ctx.observe("place", where)
         if notes:
             ctx.observe("default_edit", notes[idx])
         ctx.observe("outcome", ("breaking" if broken else "compatible") + ("/reported" if idiff else "/silent"))
@@ -697,15 +726,237 @@ def check_pairs(ctx, cache, pairs, stream, notes=None):
                                 {"breakage": b, "call": fmt_call((wn, kw)), "fresh": fresh}, case)
 
 
-def check_binder(ctx, cache, sgs):
-    calls = [[n, [NAMES.index(k) for k in kw]] for n, kw in CALLS]
+def check_binder(ctx, cache, sgs, where="module"):
+    """binds(model) vs real calls; through K().f / K.f of an instance / class method the interpreter adds one positional."""
+    shift = 1 if where in ("instance", "class") else 0
+    calls = [[n + shift, [NAMES.index(k) for k in kw]] for n, kw in CALLS]
     res = ctx.model([["binds", enc_plain(s), calls] for s in sgs])
     for s, r in zip(sgs, res):
-        real = [1 if c in cache.bindset(s) else 0 for c in CALLS]
+        real = [1 if c in cache.bindset(s, where) else 0 for c in CALLS]
         ctx.count("binder_cases", len(CALLS))
+        ctx.observe("binder_place", where)
         if r != real:
             bad = [CALLS[i] for i in range(len(CALLS)) if r[i] != real[i]][:3]
-            ctx.tie_failure("oracle", "binds(model) vs real CPython calls", {"signature": src(s), "calls": bad}, {"signature": src(s)})
+            ctx.tie_failure("oracle", "binds(model) vs real CPython calls", {"signature": src_in(s, where), "calls": bad}, {"signature": src_in(s, where)})
+
+
+# ------------------------------------------------------------------------------------------------ container edit histories
+def gen_param(rng, kind, avoid, dgen=None):
+    free = [x for x in NAMES if x not in avoid]
+    if not free:
+        return None
+    d = 0
+    if kind in ("PO", "PK", "KO") and rng.random() < 0.6:
+        d = dgen(rng) if dgen else rng.choice(["1", "2"])
+    return (rng.choice(free), kind, d)
+
+
+def apply_ops(sig, ops):
+    """The documented behaviour of the container on a plain list (mirror of Model/C10_hist.v:h_apply)."""
+    s, errs = list(sig), []
+    for op in ops:
+        kind = op[0]
+        names = [p[0] for p in s]
+        if kind == "seti":
+            if op[1] < len(s):
+                s[op[1]] = op[2]
+                errs.append(0)
+            else:
+                errs.append(1)
+        elif kind == "setn":
+            if op[1] in names:
+                s[names.index(op[1])] = op[2]
+            else:
+                s.append(op[2])
+            errs.append(0)
+        elif kind == "deli":
+            if op[1] < len(s):
+                del s[op[1]]
+                errs.append(0)
+            else:
+                errs.append(1)
+        elif kind == "deln":
+            if op[1] in names:
+                del s[names.index(op[1])]
+                errs.append(0)
+            else:
+                errs.append(1)
+        else:
+            if op[1][0] in names:
+                errs.append(1)
+            else:
+                s.append(op[1])
+                errs.append(0)
+    return tuple(s), errs
+
+
+def well_formed(sig):
+    return normalise(sig) == tuple(sig) and len({p[0] for p in sig}) == len(sig)
+
+
+def gen_history(rng, sig, nops):
+    """Edits that keep the list a signature `def` accepts (so that CPython can be asked about the result)."""
+    ops, cur = [], tuple(sig)
+    for _ in range(nops):
+        for _attempt in range(8):
+            r = rng.random()
+            names = [p[0] for p in cur]
+            if cur and r < 0.5:      # replace (usually by another name, same kind)
+                i = rng.randrange(len(cur))
+                kind = cur[i][1] if rng.random() < 0.8 else rng.choice(KN)
+                keep = rng.random() < 0.25
+                p = (cur[i][0], kind, rng.choice([0, "1", "2"]) if kind in ("PO", "PK", "KO") else 0) if keep else gen_param(rng, kind, names)
+                if p is None:
+                    continue
+                op = ("seti", i, p) if rng.random() < 0.5 else ("setn", cur[i][0], p)
+            elif cur and r < 0.65:
+                i = rng.randrange(len(cur))
+                op = ("deli", i) if rng.random() < 0.5 else ("deln", cur[i][0])
+            elif r < 0.75:
+                op = rng.choice([("deli", len(cur) + rng.randint(0, 1)), ("deln", rng.choice(NAMES)), ("seti", len(cur), ("a", "PK", 0))])
+            else:
+                p = gen_param(rng, rng.choice(KN), names if rng.random() < 0.85 else [])
+                if p is None:
+                    continue
+                op = ("add", p) if rng.random() < 0.6 else ("setn", p[0], p)
+            nxt, _ = apply_ops(cur, [op])
+            if well_formed(nxt):
+                ops.append(op)
+                cur = nxt
+                break
+    return ops
+
+
+def enc_param(p):
+    return enc((p,))[0]
+
+
+def enc_op(op):
+    if op[0] == "seti":
+        return ["seti", op[1], enc_param(op[2])]
+    if op[0] == "setn":
+        return ["setn", NAMES.index(op[1]), enc_param(op[2])]
+    if op[0] == "deli":
+        return ["deli", op[1]]
+    if op[0] == "deln":
+        return ["deln", NAMES.index(op[1])]
+    return ["add", enc_param(op[1])]
+
+
+def real_param(cache, p):
+    """A Parameter object as the visitor builds it (taken from a visited one-parameter function)."""
+    import copy
+    return copy.copy(cache.module((p,)).members["f"].parameters[0])
+
+
+def run_real_history(cache, sig, ops):
+    mod = cache.fresh_module(sig)
+    params = mod.members["f"].parameters
+    errs = []
+    for op in ops:
+        try:
+            if op[0] == "seti":
+                params[op[1]] = real_param(cache, op[2])
+            elif op[0] == "setn":
+                params[op[1]] = real_param(cache, op[2])
+            elif op[0] == "deli":
+                del params[op[1]]
+            elif op[0] == "deln":
+                del params[op[1]]
+            else:
+                params.add(real_param(cache, op[1]))
+            errs.append(0)
+        except (IndexError, KeyError, ValueError):
+            errs.append(1)
+    return mod, errs
+
+
+def fmt_op(op):
+    def ps(p):
+        return src((p,))[len("def f("):-len("): pass")]
+    if op[0] in ("seti", "setn"):
+        return f"parameters[{op[1]!r}] = Parameter({ps(op[2])})"
+    if op[0] in ("deli", "deln"):
+        return f"del parameters[{op[1]!r}]"
+    return f"parameters.add(Parameter({ps(op[1])}))"
+
+
+KIND_OF = {"positional_only": "PO", "positional_or_keyword": "PK", "var_positional": "VP", "keyword_only": "KO", "var_keyword": "VK"}
+
+
+def check_histories(ctx, cache, items):
+    """items: (old signature, old edits, new signature, new edits).  The functions compared are the visited ones after
+    the edits were applied through the container API; CPython is asked about the parameter lists that iteration shows."""
+    res = ctx.model([["hdiff", enc(o), [enc_op(x) for x in ho], enc(n), [enc_op(x) for x in hn]] for o, ho, n, hn in items])
+    for (o, ho, n, hn), r in zip(items, res):
+        fo, eo = apply_ops(o, ho)
+        fn, en = apply_ops(n, hn)
+        case = {"old": src(o), "old_edits": [fmt_op(x) for x in ho], "new": src(n), "new_edits": [fmt_op(x) for x in hn],
+                "old_after_edits": src(fo), "new_after_edits": src(fn)}
+        if r == ["bad-input"]:
+            ctx.tie_failure("harness", "model rejected the encoded history", case, case)
+            continue
+        mfo, meo, mfn, men, mdiff, gap, wf = r
+        mo, reo = run_real_history(cache, o, ho)
+        mn, ren = run_real_history(cache, n, hn)
+        shape = lambda ps: [[NAMES.index(p.name), KIND_OF[p.kind.name], 1 if p.default is not None else 0] for p in ps]  # noqa: E731
+        pyshape = lambda sg: [[NAMES.index(nm), k, 1 if (d or k in ("VP", "VK")) else 0] for nm, k, d in sg]  # noqa: E731
+        ro, rn = shape(mo.members["f"].parameters), shape(mn.members["f"].parameters)
+        ctx.case(case, True)
+        ctx.observe("stream", "edit-histories")
+        for x in ho + hn:
+            ctx.observe("edit", x[0])
+        ctx.observe("edit_errors", sum(eo) + sum(en))
+        # (C) the container: iteration and raised errors vs the list model (Coq) vs its python mirror
+        if [ro, reo, rn, ren] != [mfo, meo, mfn, men] or [mfo, meo, mfn, men] != [pyshape(fo), eo, pyshape(fn), en]:
+            ctx.tie_failure("correspondence", "Parameters after the edit history: iteration/errors (impl) vs h_run (model)",
+                            {"impl": [ro, reo, rn, ren], "model": [mfo, meo, mfn, men]}, case)
+            continue
+        if wf != 1:
+            ctx.tie_failure("harness", "history generator left an ill-formed signature", case, case)
+            continue
+        # look-up by name must see the same list (this is what the diff relies on)
+        for mod, final in ((mo, fo), (mn, fn)):
+            params = mod.members["f"].parameters
+            for nm in NAMES:
+                present = nm in [p[0] for p in final]
+                twin = None
+                try:
+                    twin = params[nm]
+                except KeyError:
+                    pass
+                if (nm in params) != present or (twin is not None) != present or (present and not any(twin is q for q in params)):
+                    ctx.tie_failure("oracle", "Parameters look-up by name disagrees with its own iteration after the edit history", {"name": nm, "listed": present, "in": nm in params}, case)
+        raised = None
+        try:
+            idiff = impl_diff(cache, fo, fn, mods=(mo, mn))
+        except Exception as e:  # noqa: BLE001
+            idiff, raised = [], type(e).__name__ + ": " + str(e)[:120]
+        broken = cache.bindset(fo) - cache.bindset(fn)
+        ctx.observe("history_outcome", ("breaking" if broken else "compatible") + ("/raised" if raised else "/reported" if idiff else "/silent"))
+        if raised:
+            ctx.property_failure(case, {"find_breaking_changes raised instead of reporting": raised, "broken_calls": len(broken)})
+            continue
+        if sorted(mdiff) != sorted(idiff):
+            ctx.tie_failure("correspondence", "fdiff_m(model) on the edited signatures vs find_breaking_changes on the edited objects",
+                            {"model": sorted(mdiff), "impl": sorted(idiff)}, case)
+        if broken and not idiff:
+            fid = "C10-F2" if (not mdiff and gap) else None
+            ctx.property_failure({**case, "call": fmt_call(sorted(broken)[0])}, {"reported": idiff, "broken_calls": len(broken)}, finding=fid)
+        if fo == fn and idiff:
+            ctx.property_failure(case, {"identical signatures reported": idiff})
+        rep = {(k, NAMES[pi]) for k, pi in idiff if pi >= 0}
+        od = {p[0]: (i, p) for i, p in enumerate(fo)}
+        nd = {p[0]: (i, p) for i, p in enumerate(fn)}
+        for nm in od.keys() & nd.keys():
+            (oi, (_, okd, od_)), (ni, (_, nkd, nd_)) = od[nm], nd[nm]
+            if okd in ("PO", "PK") and nkd in ("PO", "PK") and oi != ni and ("moved", nm) not in rep:
+                ctx.property_failure(case, {"moved positional parameter not reported": nm, "reported": idiff})
+            if (od_ or okd in ("VP", "VK")) and not nd_ and nkd not in ("VP", "VK") and ("required", nm) not in rep:
+                ctx.property_failure(case, {"optional parameter made required not reported": nm, "reported": idiff})
+        for k, pi in idiff:
+            if pi >= 0 and od.get(NAMES[pi]) == nd.get(NAMES[pi]):
+                ctx.property_failure(case, {"breakage names unchanged parameter": [k, NAMES[pi]]})
 
 
 def check_dval(ctx, texts):
@@ -768,6 +1019,26 @@ def explore(ctx):
         rp.append((o, n))
     check_binder(ctx, cache, list({s for p in rp[:400] for s in p}))
     check_pairs(ctx, cache, rp, "random<=5")
+    # methods: the same rules must hold for functions defined in a class body (instance, class and static methods),
+    # with calls going through K().f / K.f
+    S1 = [x for x in S2 if len(x) <= 1]
+    for where in PLACES[1:]:
+        sub = ctx.rng.sample(S2, ctx.budget(28, 120)) + S1
+        check_binder(ctx, cache, sub, where)
+        mp = [(o, n) for o in sub for n in sub]
+        for _ in range(ctx.budget(500, 6000)):
+            o = random_sig(ctx.rng)
+            mp.append((o, random_sig(ctx.rng) if ctx.rng.random() < 0.3 else mutate(ctx.rng, o)))
+        check_pairs(ctx, cache, mp, "methods", where=where)
+    # functions whose parameters were edited through the container API before being compared
+    hist = []
+    for _ in range(ctx.budget(2500, 25000)):
+        o = random_sig(ctx.rng, maxn=4)
+        n = o if ctx.rng.random() < 0.6 else mutate(ctx.rng, o)
+        ho = gen_history(ctx.rng, o, ctx.rng.choice([0, 0, 0, 1, 2]))
+        hn = gen_history(ctx.rng, n, ctx.rng.choice([1, 1, 2, 3]))
+        hist.append((o, ho, n, hn))
+    check_histories(ctx, cache, hist)
     # expression defaults
     xp, notes = [], []
     for _ in range(ctx.budget(4000, 40000)):
@@ -941,13 +1212,43 @@ def replay(ctx, data):
         print("replay names no input:", data.get("no_longer_checks"))
         return 0
     import griffe
-    o = griffe.visit("m", filepath=None, code=case["old"] + "\n")
-    n = griffe.visit("m", filepath=None, code=case["new"] + "\n")
-    print(case)
-    print("find_breaking_changes:", [(b.kind.value, getattr(b.old_value, "name", None) or getattr(b.new_value, "name", None)) for b in griffe.find_breaking_changes(o, n)])
-    so, sn = parse_sig(case["old"]), parse_sig(case["new"])
+    print(json.dumps(case, indent=1))
     cache = Cache()
-    broken = sorted(cache.bindset(so) - cache.bindset(sn))
+    where = next((w for w in PLACES if case.get("where", "module").startswith(w)), "module")
+    so, sn = parse_sig(case["old"]), parse_sig(case["new"])
+    if "old_edits" in case:
+        # re-apply the recorded container edits (they are printed as python statements over `parameters`)
+        def edited(text, edits):
+            mod = griffe.visit("m", filepath=None, code=text + "\n")
+            parameters = mod.members["f"].parameters
+            for e in edits:
+                try:
+                    if e.startswith("del "):
+                        exec(e, {"parameters": parameters})  # noqa: S102
+                    else:
+                        inner = e[e.index("Parameter(") + len("Parameter("):-1]
+                        if e.startswith("parameters.add"):
+                            inner = inner[:-1]
+                        p = real_param(cache, parse_sig(f"def f({inner}): pass")[0])
+                        if e.startswith("parameters.add"):
+                            parameters.add(p)
+                        else:
+                            key = eval(e[len("parameters["):e.index("] = ")])  # noqa: S307
+                            parameters[key] = p
+                except (IndexError, KeyError, ValueError) as err:
+                    print("  edit raised:", e, "->", type(err).__name__)
+            return mod
+        o, n = edited(case["old"], case["old_edits"]), edited(case["new"], case["new_edits"])
+        so, sn = parse_sig(case["old_after_edits"]), parse_sig(case["new_after_edits"])
+        print("parameters after edits:", [p.name for p in o.members["f"].parameters], "->", [p.name for p in n.members["f"].parameters])
+    else:
+        o = griffe.visit("m", filepath=None, code=case["old"] + "\n")
+        n = griffe.visit("m", filepath=None, code=case["new"] + "\n")
+    try:
+        print("find_breaking_changes:", [(b.kind.value, getattr(b.old_value, "name", None) or getattr(b.new_value, "name", None)) for b in griffe.find_breaking_changes(o, n)])
+    except Exception as e:  # noqa: BLE001
+        print("find_breaking_changes raised", type(e).__name__, e)
+    broken = sorted(cache.bindset(so, where) - cache.bindset(sn, where))
     print("calls bound by old and rejected by new:", [fmt_call(c) for c in broken[:5]])
     for (nm, k, d), (nm2, k2, d2) in itertools.product(so, sn):
         if nm == nm2 and d and d2 and DInfo.of(d).dump != DInfo.of(d2).dump:
